@@ -2,7 +2,7 @@
    prod, sumbool, sumor map to OCaml's; N, Z, positive, nat, byte stay inductive.
    Compiled with the working directory set to /verif/ocaml (no Extraction Output Directory). *)
 From Coq Require Import ExtrOcamlBasic.
-From GV Require Import Base.Bytes Base.Utf8 Base.StrOps Helpers.Uuid Helpers.Email Helpers.Url Helpers.Alnum Misc.Migrate.
+From GV Require Import Base.Bytes Base.Utf8 Base.StrOps Helpers.Uuid Helpers.Email Helpers.Url Helpers.Alnum Misc.Migrate Misc.Middleware.
 
 Extraction "model.ml"
   all_bytes b2n
@@ -14,4 +14,5 @@ Extraction "model.ml"
   findSchemeEnd isValidSchemeChar hasInvalidChars validateSchemeWithoutHost validateSchemeWithHost
   isValidHostStart IsValidURL
   IsValidAlpha IsNumeric
-  migrate_content migrate_count.
+  migrate_content migrate_count
+  mw_eval.
